@@ -277,7 +277,7 @@ def run(ctx):
     names = gen.FAST if ctx.quick else gen.ALL
     results = []
     for i in range(90 if ctx.quick else 600):
-        name = names[i % len(names)]
+        name = gen.rotate(names, i, ctx.quick)
         spec = dunit.general_spec(rng, name, max_calls=3, metrics=rng.choice([0, 0, 2]), sizes=(2, 3, 5), max_points=30,
                                   n_max=16, memory=True, verbosity=False,
                                   ndims=rng.choice([1, 2]))
